@@ -11,3 +11,23 @@ package xuperos
 //@   property C07
 //@   at State.DoTx assert only_after_positive_verdict: isValid && $0 == tx
 //@   at State.VerifyTx assert verifies_submitted_tx: $0 == tx
+
+// C09: pre-execution runs the requests in a sandbox over the LIVE state (the state's
+// own readers), in order, with the caller's arguments; what it returns as inputs /
+// outputs / transfers is the sandbox's read / write set taken after the flush, and
+// each returned request carries the resources that request actually used as its limit.
+//@ func Chain.PreExec
+//@   property C09
+//@   local stateConfig *contract.SandboxConfig
+//@   local contextConfig *contract.ContextConfig
+//@   local req *protos.InvokeRequest
+//@   local rwSet *contract.RWSet
+//@   local utxoRWSet *contract.UTXORWSet
+//@   at Manager.NewStateSandbox assert over_the_live_state: $0 == stateConfig
+//@   at State.CreateXMReader assert the_states_own_reader: recv == t.ctx.State
+//@   at Manager.NewContext assert request_in_the_shared_sandbox: $0 == contextConfig && contextConfig.ContractName == req.ContractName && contextConfig.Module == req.ModuleName
+//@   at Context.Invoke assert with_the_callers_method_and_arguments: $0 == req.MethodName && $1 == req.Args
+//@   at xmodel.GetTxInputs assert inputs_are_the_sandbox_read_set: $0 == rwSet.RSet
+//@   at xmodel.GetTxOutputs assert outputs_are_the_sandbox_write_set: $0 == rwSet.WSet
+//@   at StateSandbox.RWSet assert sets_taken_after_the_flush: err == nil && sel(flushed, recv)
+//@   at contract.ToPbLimits assert limits_are_the_resources_used: true
